@@ -586,6 +586,11 @@ Fixpoint sh_tokens_loop (fuel : nat) (st : state) : res (list (token * str) * st
 Definition sh_tokens (s : str) : res (list (token * str) * state) :=
   sh_tokens_loop (S (length s)) (false, s).
 
+(* func splitIntoShellTokens(line Autofixer, text string) (tokens []string, rest string)  (shell.go):
+   p := NewShTokenizer(line, text); ShToken() until nil, collecting token.MkText; rest = p.parser.Rest() *)
+Definition split_tokens (text : str) : res (list str * str) :=
+  bind (sh_tokens text) (fun '(l, (_, rest)) => Ok (map (fun p => tok_text (fst p)) l, rest)).
+
 End WithExpr.
 
 (* The expression lexer used by the correspondence run: the harness asks the real
